@@ -236,6 +236,23 @@ pub fn point_event(id: u64, src: &str, oh: &Oh, ctx: &Ctx, t: NaiveDateTime, bou
                 ev["bound"] = json!([b.num_days(), (b - Duration::days(b.num_days())).num_seconds()]);
                 ev["state_b"] = json!(s.as_str());
                 ev["next_change_b"] = n.map(instant).unwrap_or_else(|| json!([]));
+                // a window under the bounded context: whatever the approximation does, no interval may leave [t, min(to, END))
+                let to_b = match id % 4 {
+                    0 => t + b / 2 + Duration::minutes(7),
+                    1 => t + b * 2 + Duration::days(1),
+                    2 => t + Duration::days(3_000),
+                    _ => datetime(DAY_MAX + 2, 0),
+                };
+                match guarded(|| oh_b.iter_range(t, to_b).take(8).collect::<Vec<_>>()) {
+                    Ok(ivs) => {
+                        ev["to_b"] = instant(to_b);
+                        ev["range_b"] = Value::Array(ivs.iter().map(interval_json).collect());
+                    }
+                    Err(p) => {
+                        ev["panic"] = json!(p);
+                        return Some(ev);
+                    }
+                }
             }
             Err(p) => {
                 ev["panic"] = json!(p);
@@ -543,7 +560,15 @@ pub fn record(args: &Args) {
                     range_event(id + 1, &src, &oh, &ctx, t, to, if long { &long_lim } else { &lim })
                 }
                 "bounds" => {
-                    if rng.chance(1, 2) {
+                    if rng.chance(1, 5) {
+                        // the same clamps under an interval-size bound
+                        let b = match rng.below(3) {
+                            0 => Duration::days(rng.range(1, 40)),
+                            1 => Duration::days(366),
+                            _ => Duration::hours(rng.range(25, 20_000)),
+                        };
+                        point_event(id + 1, &src, &oh, &ctx, t, Some(b), &lim)
+                    } else if rng.chance(1, 2) {
                         point_event(id + 1, &src, &oh, &ctx, t, None, if rng.chance(1, long_every) { &long_lim } else { &lim })
                     } else {
                         let to = match rng.below(5) {
